@@ -146,6 +146,7 @@ type Sim struct {
 	yieldAll   bool
 	yieldSites map[string]bool // active sites when !yieldAll
 	bindOn     bool            // goroutine->node binding wanted (set once yield sites are configured)
+	keyringOn  bool            // park at the Keyring entry/exit yields (C17K)
 
 	Steps    int
 	MaxSteps int
@@ -197,6 +198,11 @@ func newSim(seed uint64) *Sim {
 func (s *Sim) Now() time.Duration { return time.Since(s.start) }
 
 func (s *Sim) siteActive(site string) bool {
+	if site == "keyring" {
+		// entry/exit of every Keyring method: only where a scenario asks for it (it is hit
+		// twice per inbound packet of an encrypted cluster)
+		return s.keyringOn
+	}
 	if s.yieldAll {
 		return true
 	}
